@@ -546,7 +546,11 @@ def g_schema(s, _depth=0):
             alts = [g_schema(x, _depth + 1) for x in s["types"][0]]
             if not alts:
                 raise Unrepresentable("any with no alternatives is not declarable")
-            obj = _build_any(D, alts, _next_route(("any", min(len(alts), 4))))
+            # unions holding the accept-everything alternative are a kind of their own (by its position):
+            # their few members meet every way of writing a union, whatever else has been built before
+            bare = [i for i, x in enumerate(s["types"][0]) if x["t"] == "any" and not x["types"]]
+            shape = ("any", min(len(alts), 4)) if not bare else ("any_bare", min(len(alts), 4), bare[0])
+            obj = _build_any(D, alts, _next_route(shape))
         return obj
     if t == "alias":
         return D.schema.alias(s["name"], g_schema(s["type"], _depth + 1))
